@@ -260,9 +260,19 @@ func (v *PacketDslVisitorImpl) VisitFieldDefinitionWithAttribute(ctx *gen.FieldD
 			if padChar == "'\\x00'" {
 				padChar = "'\x00'"
 			}
+			fixedString, isFixedString := f.Attr.(*model.FixedStringFieldAttribute)
+			if !isFixedString {
+				v.BinModel.AddSyntaxError(&model.SyntaxError{
+					Line:            ctx.GetStart().GetLine(),
+					Column:          ctx.GetStart().GetTokenSource().GetCharPositionInLine(),
+					Msg:             fieldAttr.PaddingAttribute().PADDING_ATTR().GetText() + " is only allowed on fixed-length string fields (char[n]), not on " + f.Name,
+					OffendingSymbol: nil,
+				})
+				continue
+			}
 			// the attribute object may be shared (MetaData-typed fields all point at the entry's
 			// attribute): pad a copy so the attribute applies to this field only
-			fixedAttr := *f.Attr.(*model.FixedStringFieldAttribute)
+			fixedAttr := *fixedString
 			fixedAttr.Padding = &model.Padding{
 				PadChar: padChar,
 				PadLeft: strings.Contains(fieldAttr.PaddingAttribute().PADDING_ATTR().GetText(), "left"),
